@@ -4,7 +4,7 @@
 From Coq Require Import List NArith ZArith Bool.
 Import ListNotations.
 Require Import FlexV.Regex FlexV.SpecAuto FlexV.Lockstep FlexV.Pat FlexV.Tables FlexV.Scan
-               FlexV.C01Proofs FlexV.Tokenize FlexV.NfaSim FlexV.NfaProofs.
+               FlexV.C01Proofs FlexV.Tokenize FlexV.NfaSim FlexV.NfaProofs FlexV.NfaTotal.
 
 (** The executable matcher used as oracle decides the denotation. *)
 Theorem C01_matcher_decides : forall r w, matchb r w = true <-> Matches r w.
@@ -65,6 +65,15 @@ Theorem C01_dfa_state_accepts_first_nfa_rule : forall a w X0 X,
   (Accepts a w (nacc a X) /\ forall r, Accepts a w r -> (nacc a X <= r)%N).
 Proof. exact nacc_is_the_first_accepted_rule. Qed.
 Print Assumptions C01_dfa_state_accepts_first_nfa_rule.
+
+(** On a well-formed NFA (every transition leads to a state of the NFA) the
+    simulation is total: the closure iteration reaches its fixed point within
+    the fuel it is given, so the "undefined" escape of the model never occurs. *)
+Theorem C01_subset_construction_is_total : forall a, wf_nfa a = true ->
+  exists X0, nstart a = Some X0 /\ InRange a X0 /\
+    forall w X, InRange a X -> exists X', nrun a w X = Some X' /\ InRange a X'.
+Proof. exact subset_simulation_total. Qed.
+Print Assumptions C01_subset_construction_is_total.
 
 (** Once the lock-step check has passed on the NFA flex printed, then after
     EVERY word the first rule that NFA accepts is the first rule whose pattern
